@@ -309,6 +309,51 @@ func TestQuery(t *testing.T) {
 				}
 			}
 		}
+		// several parameters in one query: each is typed by itself - what one holds does not depend on its neighbours
+		// (two byte strings, a byte string next to numbers, the same value twice)
+		{
+			vals := []string{`'aGVsbG8'`, `'d29ybGQ'`, `'IQ'`, `5`, `"s t"`, `true`, `plain text`, `'` + strings.Repeat("QUJD", 20) + `'`, `-2.5`, `null`}
+			single := func(v string) (any, error) {
+				_, ps, err := jhttp.ParseQuery(httptest.NewRequest("GET", "http://h/echo?x="+url.QueryEscape(v), nil))
+				if err != nil {
+					return nil, err
+				}
+				x := ps.(map[string]any)["x"]
+				if b, ok := x.([]byte); ok {
+					x = string(append([]byte(nil), b...))
+				}
+				return x, nil
+			}
+			for a := range vals {
+				for b := range vals {
+					for c := 0; c < len(vals); c += 3 {
+						pick := []string{vals[a], vals[b], vals[(a+b+c)%len(vals)], vals[c]}
+						q := url.Values{}
+						for k, v := range pick {
+							q.Set(fmt.Sprintf("p%d", k), v)
+						}
+						_, ps, err := jhttp.ParseQuery(httptest.NewRequest("GET", "http://h/echo?"+q.Encode(), nil))
+						res.Evaluations++
+						if err != nil {
+							res.add("?"+q.Encode(), "ParseQuery failed on values that parse one by one: "+err.Error())
+							continue
+						}
+						m, _ := ps.(map[string]any)
+						for k, v := range pick {
+							want, _ := single(v)
+							got := m[fmt.Sprintf("p%d", k)]
+							if bs, ok := got.([]byte); ok {
+								got = string(bs)
+							}
+							if !reflect.DeepEqual(got, want) {
+								res.add("?"+q.Encode(), fmt.Sprintf("parameter p%d = %s is %#v here and %#v when it stands alone", k, v, got, want))
+								break
+							}
+						}
+					}
+				}
+			}
+		}
 		// status mapping for every kind of failure
 		for _, c := range []struct {
 			q    string
